@@ -98,6 +98,7 @@ def handle_stream(ctx):
     for i in range(120 if quick else 1500):
         hs.append(handle_history(random.Random(rng.random()), rng.choice([1, 3, 20]), rng.choice(["file", "file", "memory"]),
                                  rng.randint(2, 10 if quick else 28), rng.choice([0, 10, 600, 1500])))
+    hs = streams.replay_override(ctx, "history", hs)
     res = hist.run_many(hs)
     with ThreadPoolExecutor(max_workers=12) as ex:
         refs = list(ex.map(run_ref, hs))
@@ -142,6 +143,10 @@ def c14_oracle(d):
         if c["op"] == "initialize":
             continue
         a, b = canon(c, r), canon(c, q)
+        if c["op"] in ("write", "writeat", "writestring") and not base64.b64decode(c.get("data", "")) and a[0] == "err" and b == ("n", 0):
+            # a zero-length write on a handle that is not writable: os.File makes no system call and reports (0, nil),
+            # STFS refuses it; nothing is written either way
+            continue
         if a != b:
             return [dict(i=r["i"], kind="differs-from-byte-array-file", detail=[c["op"], {k: v for k, v in c.items() if k not in ("op", "h", "data")}, str(a)[:120], str(b)[:120]])]
     return []
@@ -161,10 +166,6 @@ def classify_c14(d, f):
     wrote = any(c["op"] in ("write", "writeat", "writestring", "truncate") for c in pre[:-1]) or calls[i]["op"] in ("write", "writeat", "writestring", "truncate")
     if h["config"].get("cache") == "memory" and (wrote or any(c["op"] == "sync" for c in pre)):
         return "C14-memory-write-cache"
-    if any(c["op"] in ("readat", "writeat") for c in pre[:-1]) or calls[i]["op"] in ("readat",) and wrote:
-        return "C14-positioned-io-moves-cursor"
-    if any(c["op"] in ("readat", "writeat") for c in pre):
-        return "C14-positioned-io-moves-cursor"
     # a seek (in read mode) to a target beyond the current end loses the position
     pos, size = 0, size0
     inw = False
